@@ -31,7 +31,7 @@ func init() {
 		},
 		Real:       []string{"db", "db/mem", "db/fs (compiled against the simulated os)", "db/postgres", "lang"},
 		Stub:       []string{"store client (seeded operation generator)", "OS filesystem (simfs)", "Postgres server (pgfake)"},
-		FaultKinds: []string{"caller_buffer_reuse", "reopen", "lookup_miss"},
+		FaultKinds: []string{"caller_buffer_reuse", "close_in_use", "reopen", "lookup_miss"},
 	})
 }
 
@@ -83,7 +83,7 @@ func runC10(c *core.Ctx) *core.Outcome {
 	for i := 0; i < nops; i++ {
 		t.Begin("op")
 		hi := t.Int(2)
-		op := t.Weighted(3, 2, 2, 4, 10, 10, 2, 1)
+		op := t.Weighted(3, 2, 2, 4, 10, 10, 2, 1, 1)
 		if i < 2 {
 			op = 0
 			hi = i
@@ -465,6 +465,22 @@ func runC10(c *core.Ctx) *core.Outcome {
 			}
 			*rc = newRefCtx()
 			o.Faults["reopen"]++
+		case 8: // Close on a handle that stays in use (engine.Finish closes the resource's store after every request)
+			trace = append(trace, fmt.Sprintf("h%d.Close (handle stays in use)", hi))
+			for _, m := range meds {
+				if m.kind == world.BackPg {
+					continue // closing a Postgres handle ends its connection: C13's business
+				}
+				if !syncMem(m) {
+					continue
+				}
+				pm, pat := world.Guard(func() { m.handles[hidx(m)].Close(context.Background()) })
+				if pm != "" {
+					return fail("panic:"+pat, i, "%s on %s panicked: %s", trace[len(trace)-1], m.name, pm)
+				}
+			}
+			// the type, session and language selected on the handle are not the connection's: they stay
+			o.Faults["close_in_use"]++
 		}
 		o.States = append(o.States, h64(trace[len(trace)-1]))
 	}
